@@ -135,6 +135,19 @@ def dump_real(path):
     return "data[" + ", ".join(data) + "] ana[" + ", ".join(ana) + "]"
 
 
+def nonuser_view(path):
+    """everything stored per analysis entry except the user fields (and time/version stamps)"""
+    import h5py
+    out = {}
+    with h5py.File(path, "r") as h5:
+        for k in h5["analysis"]:
+            g = h5["analysis"][k]
+            out[k] = (sorted((a, tok_val(g.attrs[a]) if a != "data hash" else str(g.attrs[a])) for a in g.attrs
+                             if not a.startswith("user ") and a not in EXTRA),
+                      sorted((n, tok_arr(g[n][...])) for n in g))
+    return out
+
+
 def new_container(path):
     import h5py
     with h5py.File(path, "w") as h5:
@@ -194,6 +207,8 @@ class Pool:
                 idnt.apply_preprocessing(["compute_tip_position", "correct_force_offset", "correct_tip_offset"]
                                          if variant != "nopre" else [])
                 kw = {"A": dict(model_key="hertz_para"),
+                      # the same fit as "A" reached with different stored settings (the interval covers everything)
+                      "A2": dict(model_key="hertz_para", range_x=(-1, 1), range_type="absolute"),
                       "B": dict(model_key="hertz_cone"),
                       "C": dict(model_key="hertz_para", range_x=(-3e-7, 1e-7), range_type="absolute",
                                 weight_cp=0, method_kws={"ftol": 1e-9}),
@@ -295,16 +310,22 @@ def run(ctx):
             labels.append("reset")
             stored = {}        # idd -> (idnt, (name, rate, comment), variant)
             hist = []
-            for step in range(rng.randint(2, 5)):
+            # the first sequence is directed: the same curve stored three times - integer rating, then the same
+            # fit reached with other settings and a fractional rating, then the first object again
+            plan = [(keys[s % len(keys)], "A", 5), (keys[s % len(keys)], "A2", 7.5), (keys[s % len(keys)], "A", 3)] \
+                if s in (0, 1) else None
+            for step in range(len(plan) if plan else rng.randint(2, 5)):
                 fi, enum = rng.choice(keys)
                 idd_known = [k for k in stored if stored[k][3] == (fi, enum)]
                 if idd_known and rng.random() < 0.6:
-                    variant = rng.choice([stored[idd_known[0]][2], stored[idd_known[0]][2], "B", "A", "R", "F"])
+                    variant = rng.choice([stored[idd_known[0]][2], stored[idd_known[0]][2], "B", "A", "R", "F", "A2"])
                 else:
                     variant = rng.choice(["A", "A", "B", "C", "R"])
-                idnt = pool.get(fi, enum, variant)
-                rate, name, comment = rng.choice([0, 3, 7, 10, -1]), rng.choice(["ann", "bob"]), \
+                rate, name, comment = rng.choice([0, 3, 7, 10, -1, 7.5, 2.25]), rng.choice(["ann", "bob"]), \
                     rng.choice(["", "ok", "noisy baseline"])
+                if plan:
+                    (fi, enum), variant, rate = plan[step]
+                idnt = pool.get(fi, enum, variant)
                 cd = curve_desc(idnt)
                 idd = cd["idd"]
                 # how many writes would this save do?  (dry run on a copy)
@@ -319,6 +340,7 @@ def run(ctx):
                 base = tdir / "base.h5"
                 shutil.copy(h5, base)
                 before_dump = dump_real(h5)
+                before_nonuser = nonuser_view(h5)
                 before_load, before_rs = load_real(h5)
                 for fault in faults:
                     shutil.copy(base, h5)
@@ -340,7 +362,9 @@ def run(ctx):
                                                                     "fault=" + ("none" if fault is None else "yes"),
                                                                     "kind=" + ("new" if idd not in stored else
                                                                                ("same" if stored[idd][2] == variant
-                                                                                else "different-fit"))])
+                                                                                else ("same-fit-other-settings" if
+                                                                                      {stored[idd][2], variant} <= {"A", "A2"}
+                                                                                      else "different-fit")))])
                     # ---- oracle ----
                     if after_rs is not None:
                         # the other readers of the same container (metadata-only loads, the manager)
@@ -385,7 +409,17 @@ def run(ctx):
                                           {"history": hist_f})
                     originals = {k: (v[0], v[1]) for k, v in stored.items() if k != idd}
                     check_roundtrip(ctx, after_rs, originals, hist_f)
-                    if idd in stored and stored[idd][2] != variant:
+                    same_fit = idd in stored and {stored[idd][2], variant} <= {"A", "A2"}
+                    if idd in stored and fault is None and res == "ok":
+                        # storing the same curve again updates only the user fields
+                        nv0, nv1 = before_nonuser.get(idd), nonuser_view(h5).get(idd)
+                        if nv0 is not None and nv0 != nv1:
+                            ch = [a for (a, v) in nv1[0] if (a, v) not in nv0[0]] + \
+                                 [n for (n, v) in nv1[1] if (n, v) not in nv0[1]]
+                            ctx.violation("resave-changed-stored-entry", f"storing the already stored curve {idd} again "
+                                          f"(accepted) changed {ch[:6]} - only the user fields may change",
+                                          {"history": hist_f, "observed": ch})
+                    if idd in stored and stored[idd][2] != variant and not same_fit:
                         # different fit for an already stored curve: refused, file unchanged
                         if res != "err ValueError" and fault is None:
                             ctx.violation("different-fit-accepted",
@@ -395,10 +429,15 @@ def run(ctx):
                             ctx.violation("refused-save-changed-file",
                                           "refused save changed the container", {"history": hist_f})
                     if fault is None and res == "ok":
-                        check_roundtrip(ctx, after_rs, {idd: (idnt, (name, rate, comment))}, hist_f)
+                        # (an accepted re-save keeps the entry of the first save, with the new user fields)
+                        kept = stored[idd][0] if idd in stored else idnt
+                        check_roundtrip(ctx, after_rs, {idd: (kept, (name, rate, comment))}, hist_f)
                 # keep the state of the un-faulted save
                 if res == "ok":
-                    stored[idd] = (idnt, (name, rate, comment), variant, (fi, enum))
+                    if idd in stored:
+                        stored[idd] = (stored[idd][0], (name, rate, comment), stored[idd][2], (fi, enum))
+                    else:
+                        stored[idd] = (idnt, (name, rate, comment), variant, (fi, enum))
                 hist.append(f"save file{fi} enum{enum} fit{variant}")
         # several containers in one process: the same raw curve stored with different fits in two containers,
         # both loaded (results of the first kept while the second is loaded; a folder holding both)
